@@ -188,7 +188,7 @@ def run(ctx):
                 break
             if not enet.adjusted_ok(o):
                 if rnd == 0:
-                    ctx.hist("skipped_not_adjusted", 1)
+                    ctx.skipped("skipped_not_adjusted", {"gkf": txt})
                 else:
                     ctx.violation({"kind": "E:export", "gkf": txt, "exported": cur, "round": rnd, "output": (o["run"].out + o["run"].err)[-500:]},
                                   "the exported file of an adjustable network is not adjusted (round %d)" % rnd); bad += 1
